@@ -11,7 +11,7 @@ LINKS = ["await_coro", "await_gencoro", "await_obj_wrapper", "await_obj_gen", "y
          "anext_builtin", "anext_default", "anext_custom", "anext_custom_default",
          # frames that hold managers open while the chain continues below them
          "agen_with_asend", "agen_with_async_for", "agen_with_anext", "gen_with_yield_from"]
-ENDS = ["trap", "trap", "fut", "listiter", "falsyiter"]
+ENDS = ["trap", "trap", "fut", "listiter", "falsyiter", "genlike"]
 OUTERS = ["coro", "coro", "gen", "gencoro", "agen"]
 
 
